@@ -1010,9 +1010,12 @@ func (e *AnimEncoder) increasePreviousDuration(durMS int) error {
 	}
 
 	e.prevMuxIndex = e.muxer.NumFrames() - 1
+	// The filler is now the previous frame: a dispose-to-background chosen by
+	// the next frame clears the filler's 1x1 rectangle, not the older frame's.
+	e.prevFrameRect = image.Rect(0, 0, 1, 1)
 	e.frameCount++
 	e.countSinceKeyframe++
-	// prevCanvas and prevFrameRect remain unchanged since the canvas is identical.
+	// prevCanvas remains unchanged since the canvas is identical.
 	return nil
 }
 
